@@ -48,7 +48,7 @@ inductive Res (α : Type) where
   | reject (msg : String)
   | fatal (msg : String)
   | hazard (u : Hazard)
-  deriving Repr
+  deriving Repr, DecidableEq
 
 @[inline] def Res.bind {α β : Type} (x : Res α) (f : α → Res β) : Res β :=
   match x with
@@ -94,15 +94,14 @@ def two63 : Nat := 9223372036854775808
 def rdN (rest : Bytes) (n : Nat) : Option (Bytes × Bytes) :=
   if n ≤ rest.length then some (rest.take n, rest.drop n) else none
 
-/-- split a byte string into `w`-byte chunks decoded as signed integers (a trailing partial chunk is
-    dropped; the arrays handed to it always have a length that is a multiple of `w`) -/
-def decInts (w : Nat) (b : Bytes) : List Int :=
-  if _h : w = 0 ∨ b.length < w then [] else
-    decInt (b.take w) :: decInts w (b.drop w)
-termination_by b.length
-decreasing_by
-  simp only [List.length_drop]
-  omega
+/-- decode `k` consecutive `w`-byte integers -/
+def decN (w : Nat) : Nat → Bytes → List Int
+  | 0, _ => []
+  | k + 1, b => decInt (b.take w) :: decN w k (b.drop w)
+
+/-- a byte string as an array of `w`-byte signed integers (a trailing partial element is dropped;
+    the arrays handed to it always have a length that is a multiple of `w`) -/
+def decInts (w : Nat) (b : Bytes) : List Int := decN w (b.length / w) b
 
 /-! ## layout -/
 
@@ -189,15 +188,18 @@ def save (L : Layout ns) (m : Model ns) : Bytes :=
 
 /-! ## mj_makeModel (the part run by the loader) -/
 
-/-- the `MJMODEL_SIZES` X-loop of checks: positional parameters carry the file's value, the names
-    that are not parameters are dummy locals equal to 0 -/
+/-- value seen by the `MJMODEL_SIZES` X-loop of checks for the `i`-th name: positional parameters
+    carry the file's value, the names that are not parameters are dummy locals equal to 0 -/
+def argVal (L : Layout ns) (s : Sizes ns) (i : Nat) : Int :=
+  if h : i < L.nargs ∧ i < ns then s[i]'h.2 else 0
+
+/-- the `MJMODEL_SIZES` X-loop of checks at the top of `mj_makeModel` -/
 def checkArgs (L : Layout ns) (s : Sizes ns) : (i : Nat) → (names : List String) → Res Unit
   | _, [] => .ok ()
   | i, name :: rest =>
-    let v : Int := if h : i < L.nargs ∧ i < ns then s[i]'h.2 else 0
-    if v < 0 then .reject s!"Invalid model: {name} is negative ({v})."
-    else if v ≥ L.maxArray ∧ ¬ L.exemptMax.contains i then
-      .reject s!"Invalid model: {name} is too large. Expected < {L.maxArray}. Got {v}."
+    if argVal L s i < 0 then .reject s!"Invalid model: {name} is negative ({argVal L s i})."
+    else if argVal L s i ≥ L.maxArray ∧ ¬ L.exemptMax.contains i then
+      .reject s!"Invalid model: {name} is too large. Expected < {L.maxArray}. Got {argVal L s i}."
     else checkArgs L s (i + 1) rest
 
 def mapSum (L : Layout ns) (s : Sizes ns) : Int := (L.mapTerms.map (fun j => s[j])).sum
@@ -233,6 +235,7 @@ def allocLoop (L : Layout ns) (sa : Sizes ns) : List (Ptr ns) → Nat → Res (L
 structure Alloc where
   caps : List Nat
   nbuffer : Nat
+  deriving DecidableEq
 
 def makeModel (L : Layout ns) (s : Sizes ns) : Res Alloc := do
   checkArgs L s 0 L.sizeNames
@@ -680,11 +683,6 @@ def checkHeader : List Int → List Int → List String → Res Unit
     if h ≠ e then .reject (match msgs with | [] => "" | [d] => d | w :: _ => w)
     else checkHeader es hs (match msgs with | [] => [] | [d] => [d] | _ :: ws => ws)
 
-/-- decode `k` consecutive `w`-byte integers -/
-def decN (w : Nat) : Nat → Bytes → List Int
-  | 0, _ => []
-  | k + 1, b => decInt (b.take w) :: decN w k (b.drop w)
-
 /-- `bufread` of the struct blobs (their total size has been checked by the caller) -/
 def readBlobs : List (String × Nat) → Bytes → Res (List Bytes × Bytes)
   | [], rest => .ok ([], rest)
@@ -779,5 +777,52 @@ def loadNbuf (L : Layout ns) (buf : Bytes) : Option Nat :=
 
 /-- the `Option` view: `some m` exactly when the C loader returns a non-NULL model -/
 def loadOpt (L : Layout ns) (sp : Model ns → Res Unit) (buf : Bytes) : Option (Model ns) := (load L sp buf).toOption
+
+/-! ## consistency of a model value with its sizes (hypothesis of the theorems; also evaluated by the
+driver on every model of the differential run) -/
+
+/-- `v` fits in `n` bytes, two's complement -/
+def InRange (n : Nat) (v : Int) : Prop := -((256 : Int) ^ n) ≤ 2 * v ∧ 2 * v < (256 : Int) ^ n
+
+instance (n : Nat) (v : Int) : Decidable (InRange n v) := by unfold InRange; infer_instance
+
+/-- exact array lengths under sizes `s` -/
+def LensOK (s : Sizes ns) : List (Ptr ns) → List Bytes → Prop
+  | [], [] => True
+  | p :: ps, a :: as => (a.length : Int) = p.bytes s ∧ LensOK s ps as
+  | _, _ => False
+
+structure Layout.WF (L : Layout ns) : Prop where
+  hdrRange : ∀ v ∈ L.header, InRange L.intSz v
+
+/-- a model value consistent with its sizes (what `mj_makeModel` + the compiler guarantee) -/
+structure Consistent (L : Layout ns) (sp : Model ns → Res Unit) (m : Model ns) : Prop where
+  sizesRange : ∀ v ∈ m.sizes.toList, InRange L.sizeSz v
+  make : ∃ al, makeModel L m.sizes = .ok al ∧ (al.nbuffer : Int) = m.sizes[L.nbuffer]
+  dimsAgree : ∀ p ∈ L.ptrs, p.bytes (allocSizes L m.sizes) = p.bytes m.sizes
+  ncFits : ∀ p ∈ L.ptrs, p.ncInt m.sizes L.intMax = .ok (p.nc m.sizes)
+  blobsLen : m.blobs.map List.length = L.blobs.map (·.2)
+  arraysLen : LensOK m.sizes L.ptrs m.arrays
+  small : (save L m).length ≤ 2147483647
+  valid : validate L sp m = .ok ()
+
+/-- Boolean form of `LensOK` -/
+def lensOKB (s : Sizes ns) : List (Ptr ns) → List Bytes → Bool
+  | [], [] => true
+  | p :: ps, a :: as => decide ((a.length : Int) = p.bytes s) && lensOKB s ps as
+  | _, _ => false
+
+/-- executable form of `Consistent` (`Lemmas/Mjb.lean: consistentB_sound`) -/
+def consistentB (L : Layout ns) (sp : Model ns → Res Unit) (m : Model ns) : Bool :=
+  m.sizes.toList.all (fun v => decide (InRange L.sizeSz v)) &&
+  (match makeModel L m.sizes with
+   | .ok al => decide ((al.nbuffer : Int) = m.sizes[L.nbuffer])
+   | _ => false) &&
+  L.ptrs.all (fun p => decide (p.bytes (allocSizes L m.sizes) = p.bytes m.sizes)) &&
+  L.ptrs.all (fun p => decide (p.ncInt m.sizes L.intMax = .ok (p.nc m.sizes))) &&
+  decide (m.blobs.map List.length = L.blobs.map (·.2)) &&
+  lensOKB m.sizes L.ptrs m.arrays &&
+  decide ((save L m).length ≤ 2147483647) &&
+  decide (validate L sp m = .ok ())
 
 end MjProof.Mjb
